@@ -43,6 +43,8 @@ type TransferPlan struct {
 	MagnetTiers  [][]string `json:"magnet_tiers,omitempty"`
 	// DiskWriteLatMax stretches the window in which a piece write is in flight.
 	DiskWriteLatMax time.Duration `json:"disk_write_lat_max,omitempty"`
+	// LiveTrackers: this many scripted HTTP trackers answer the torrent's announces.
+	LiveTrackers int `json:"live_trackers,omitempty"`
 	// YieldP: probability of a seeded yield before each mutex acquisition in rain (see simrt.Yield).
 	YieldP     float64       `json:"yield_p,omitempty"`
 	YieldSleep time.Duration `json:"yield_sleep,omitempty"`
@@ -142,7 +144,7 @@ func (d *dupTracker) sustained(piece int, t0 time.Duration) []*refbt.Peer {
 }
 
 func (d *dupTracker) recheck(piece int, t0 time.Duration) {
-	time.Sleep(2 * time.Second)
+	time.Sleep(2*time.Second + simrt.YieldSlack())
 	a := d.sustained(piece, t0)
 	if len(a) <= d.limit {
 		return
@@ -241,7 +243,7 @@ func (b *banTracker) onServedPiece(p *refbt.Peer, index int, corrupt bool, mark 
 			}
 			time.Sleep(100 * time.Millisecond)
 		}
-		time.Sleep(5*time.Second + b.w.plan.DiskWriteLatMax)
+		time.Sleep(5*time.Second + b.w.plan.DiskWriteLatMax + simrt.YieldSlack())
 		// somebody completed the piece after all (a copy that was already in the write
 		// cache, a peer that came and went): then this copy may never have been checked
 		if DiskState(b.w.sut.FS, b.w.dir, b.w.T, false)[index] || p.SutAnnounced(index) {
@@ -398,6 +400,21 @@ func RunTransfer(env *Env, plan *TransferPlan) {
 		w.ws = append(w.ws, wa)
 		T.URLList = append(T.URLList, wa.URL)
 	}
+	// live trackers (API stress: announcers with real replies next to stop/start/verify)
+	var liveTrackers []*TrackerActor
+	for i := 0; i < plan.LiveTrackers; i++ {
+		iv := int64(1 + i*2)
+		ta := &TrackerActor{Host: env.NewHost(fmt.Sprintf("trk%d", i), "tracker"), Name: fmt.Sprintf("trk%d", i), Script: []Reply{{Kind: "ok", Interval: &iv}}}
+		ta.Peers = []string{"10.250.0.1:7001"}
+		ta.Start(env.R.Uint64())
+		liveTrackers = append(liveTrackers, ta)
+		T.Trackers = append(T.Trackers, []string{ta.URL})
+	}
+	defer func() {
+		for _, ta := range liveTrackers {
+			ta.Stop()
+		}
+	}()
 	T.RebuildMeta()
 
 	sutHost := env.NewHost("sut", "sut")
